@@ -130,62 +130,85 @@ def chunksN : Nat → Nat → Bytes → Option (List Bytes × Bytes)
           | none => none
           | some (xs, r) => some (x :: xs, r)
 
+/-- `(afi:u16, safi:u8, x:u8)` tuples: family key and the last octet -/
+def famTuple4 (x : Bytes) : Nat × Nat :=
+  (be (x.take 2) * 65536 + be ((x.drop 2).take 1), be (x.drop 3))
+
+def capMp (rest : Bytes) (len : Nat) : Option (Cap × Nat) :=
+  if len ≠ 4 then none else (takeN rest 4).map fun (x, _) => (Cap.mp (be x), 4)
+
+def capEnh (rest : Bytes) (len : Nat) : Option (Cap × Nat) :=
+  if len % 6 ≠ 0 then none
+  else (chunksN (len / 6) 6 rest).map fun (xs, _) =>
+    (Cap.enh ((xs.map fun x => (be (x.take 4), be (x.drop 4))).filter
+        fun (f, a) => f / 65536 == 1 && a == 2), len)
+
+def capGr (rest : Bytes) (len : Nat) : Option (Cap × Nat) :=
+  if len % 4 ≠ 2 then none
+  else match takeN rest 2 with
+    | none => none
+    | some (r, rest1) =>
+        (chunksN ((len - 2) / 4) 4 rest1).map fun (xs, _) =>
+          (Cap.gr (be r / 4096) (be r % 4096) (xs.map famTuple4), len)
+
+def capAs4 (rest : Bytes) (len : Nat) : Option (Cap × Nat) :=
+  if len ≠ 4 then none else (takeN rest 4).map fun (x, _) => (Cap.as4 (be x), 4)
+
+def capAddpath (rest : Bytes) (len : Nat) : Option (Cap × Nat) :=
+  if len % 4 ≠ 0 then none
+  else (chunksN (len / 4) 4 rest).map fun (xs, _) =>
+    (Cap.addpath ((xs.map famTuple4).filter fun (_, v) => !(v == 0 || v > 3)), len)
+
+def capLlgr (rest : Bytes) (len : Nat) : Option (Cap × Nat) :=
+  if len % 7 ≠ 0 then none
+  else (chunksN (len / 7) 7 rest).map fun (xs, _) =>
+    (Cap.llgr (xs.map fun x =>
+        (be (x.take 2) * 65536 + be ((x.drop 2).take 1), be ((x.drop 3).take 1), be (x.drop 4))), len)
+
+def capFqdn (rest : Bytes) (len : Nat) : Option (Cap × Nat) :=
+  if len < 2 then none
+  else match rest with
+    | [] => none
+    | hostlen :: rest1 =>
+        if hostlen + 2 > len then none
+        else match takeN rest1 hostlen with
+          | none => none
+          | some (_, rest2) =>
+              match rest2 with
+              | [] => none
+              | domainlen :: rest3 =>
+                  if 2 + hostlen + domainlen > len then none
+                  else match takeN rest3 domainlen with
+                    | none => none
+                    | some _ => some (.fqdn, 2 + hostlen + domainlen)
+
+def capFlag (c : Cap) (len : Nat) : Option (Cap × Nat) :=
+  if len ≠ 0 then none else some (c, 0)
+
+def capUnk (code : Nat) (rest : Bytes) (len : Nat) : Option (Cap × Nat) :=
+  (takeN rest len).map fun (x, _) => (Cap.unk code x, len)
+
 /-- returns the capability and the number of bytes consumed from the cursor; `none` = `Err(())` -/
 def capDecode (code : Nat) (rest : Bytes) (len : Nat) : Option (Cap × Nat) :=
-  if code = 1 then
-    if len ≠ 4 then none else (takeN rest 4).map fun (x, _) => (Cap.mp (be x), 4)
-  else if code = 2 then
-    if len ≠ 0 then none else some (.rr, 0)
-  else if code = 5 then
-    if len % 6 ≠ 0 then none
-    else (chunksN (len / 6) 6 rest).map fun (xs, _) =>
-      (Cap.enh ((xs.map fun x => (be (x.take 4), be (x.drop 4))).filter
-          fun (f, a) => f / 65536 == 1 && a == 2), len)
-  else if code = 64 then
-    if len % 4 ≠ 2 then none
-    else match takeN rest 2 with
-      | none => none
-      | some (r, rest1) =>
-          let restart := be r
-          (chunksN ((len - 2) / 4) 4 rest1).map fun (xs, _) =>
-            (Cap.gr (restart / 4096) (restart % 4096)
-              (xs.map fun x => (be (x.take 2) * 65536 + be ((x.drop 2).take 1), be (x.drop 3))), len)
-  else if code = 65 then
-    if len ≠ 4 then none else (takeN rest 4).map fun (x, _) => (Cap.as4 (be x), 4)
-  else if code = 69 then
-    if len % 4 ≠ 0 then none
-    else (chunksN (len / 4) 4 rest).map fun (xs, _) =>
-      (Cap.addpath ((xs.map fun x => (be (x.take 2) * 65536 + be ((x.drop 2).take 1), be (x.drop 3))).filter
-          fun (_, v) => !(v == 0 || v > 3)), len)
-  else if code = 6 then
-    if len ≠ 0 then none else some (.extmsg, 0)
-  else if code = 70 then
-    if len ≠ 0 then none else some (.err, 0)
-  else if code = 71 then
-    if len % 7 ≠ 0 then none
-    else (chunksN (len / 7) 7 rest).map fun (xs, _) =>
-      (Cap.llgr (xs.map fun x =>
-          (be (x.take 2) * 65536 + be ((x.drop 2).take 1), be ((x.drop 3).take 1), be (x.drop 4))), len)
-  else if code = 73 then
-    if len < 2 then none
-    else match rest with
-      | [] => none
-      | hostlen :: rest1 =>
-          if hostlen + 2 > len then none
-          else match takeN rest1 hostlen with
-            | none => none
-            | some (_, rest2) =>
-                match rest2 with
-                | [] => none
-                | domainlen :: rest3 =>
-                    if 2 + hostlen + domainlen > len then none
-                    else match takeN rest3 domainlen with
-                      | none => none
-                      | some _ => some (.fqdn, 2 + hostlen + domainlen)
-  else
-    (takeN rest len).map fun (x, _) => (Cap.unk code x, len)
+  if code = 1 then capMp rest len
+  else if code = 2 then capFlag .rr len
+  else if code = 5 then capEnh rest len
+  else if code = 64 then capGr rest len
+  else if code = 65 then capAs4 rest len
+  else if code = 69 then capAddpath rest len
+  else if code = 6 then capFlag .extmsg len
+  else if code = 70 then capFlag .err len
+  else if code = 71 then capLlgr rest len
+  else if code = 73 then capFqdn rest len
+  else capUnk code rest len
 
 /-! ## OPEN arm -/
+
+/-- `if let Capability::FourOctetAsNumber(asn) = &decoded { four_octet_asn = *asn }` -/
+def as4After (cap : Cap) (as4 : Nat) : Nat :=
+  match cap with
+  | .as4 n => n
+  | _ => as4
 
 /-- inner `while c.position() < op_end` -/
 def capLoop (buf : Bytes) (opEnd : Nat) : Nat → Nat → Nat → List Cap → Out (Nat × Nat × List Cap)
@@ -200,10 +223,7 @@ def capLoop (buf : Bytes) (opEnd : Nat) : Nat → Nat → Nat → List Cap → O
           if opEnd < pos + cl then .err eOpenMalformed
           else match capDecode ct (buf.drop pos) cl with
             | some (cap, used) =>
-                let as4' := match cap with
-                  | .as4 n => n
-                  | _ => as4
-                capLoop buf opEnd fuel (pos + used) as4' (caps ++ [cap])
+                capLoop buf opEnd fuel (pos + used) (as4After cap as4) (caps ++ [cap])
             | none => .err eOpenMalformed
       else .ok (pos, as4, caps)
 
@@ -281,37 +301,48 @@ def asPathOk (nz : Bool) : Nat → Bytes → Bool
       else if rest.length < c * 4 then false
       else asPathOk nz fuel (rest.drop (c * 4))
 
+def decOrigin (data : Bytes) (len : Nat) : Option AttrData :=
+  if len ≠ 1 then none
+  else match data with
+    | [v] => if v > 2 then none else some (.val v)
+    | _ => none
+
+def decU32 (data : Bytes) (len : Nat) : Option AttrData :=
+  if len ≠ 4 then none else some (.val (be data))
+
+def decAsPath (data : Bytes) (two : Bool) : Option AttrData :=
+  if two then (asPathUp (data.length + 1) data []).map .bin
+  else if asPathOk false (data.length + 1) data then some (.bin data) else none
+
+def decAggregator (data : Bytes) (len : Nat) : Option AttrData :=
+  if len ≠ 6 ∧ len ≠ 8 then none
+  else if len = 6 then some (.bin ([0, 0] ++ data.take 2 ++ data.drop 2))
+  else some (.bin data)
+
+def decMultiple (k : Nat) (data : Bytes) (len : Nat) : Option AttrData :=
+  if len % k ≠ 0 then none else some (.bin data)
+
+def decAs4Path (data : Bytes) (len : Nat) : Option AttrData :=
+  if len % 2 ≠ 0 ∨ len < 6 then none
+  else if asPathOk true (data.length + 1) data then some (.bin data) else none
+
+def decExact (k : Nat) (data : Bytes) (len : Nat) : Option AttrData :=
+  if len ≠ k then none else some (.bin data)
+
 /-- `data` = the `len` bytes of the attribute value (the guard before the call makes them available);
     `none` = `Err(())` -/
 def attrDecode (code : Nat) (data : Bytes) (len : Nat) (two : Bool) : Option AttrData :=
   if data.length ≠ len then none
-  else if code = 1 then
-    if len ≠ 1 then none
-    else match data with
-      | [v] => if v > 2 then none else some (.val v)
-      | _ => none
-  else if code = 4 ∨ code = 5 ∨ code = 9 then
-    if len ≠ 4 then none else some (.val (be data))
-  else if code = 2 then
-    if two then (asPathUp (data.length + 1) data []).map .bin
-    else if asPathOk false (data.length + 1) data then some (.bin data) else none
-  else if code = 6 then
-    if len ≠ 0 then none else some (.bin [])
-  else if code = 7 then
-    if len ≠ 6 ∧ len ≠ 8 then none
-    else if len = 6 then some (.bin ([0, 0] ++ data.take 2 ++ data.drop 2))
-    else some (.bin data)
-  else if code = 8 ∨ code = 10 then
-    if len % 4 ≠ 0 then none else some (.bin data)
-  else if code = 16 then
-    if len % 8 ≠ 0 then none else some (.bin data)
-  else if code = 32 then
-    if len % 12 ≠ 0 then none else some (.bin data)
-  else if code = 17 then
-    if len % 2 ≠ 0 ∨ len < 6 then none
-    else if asPathOk true (data.length + 1) data then some (.bin data) else none
-  else if code = 18 then
-    if len ≠ 8 then none else some (.bin data)
+  else if code = 1 then decOrigin data len
+  else if code = 4 ∨ code = 5 ∨ code = 9 then decU32 data len
+  else if code = 2 then decAsPath data two
+  else if code = 6 then decExact 0 data len
+  else if code = 7 then decAggregator data len
+  else if code = 8 ∨ code = 10 then decMultiple 4 data len
+  else if code = 16 then decMultiple 8 data len
+  else if code = 32 then decMultiple 12 data len
+  else if code = 17 then decAs4Path data len
+  else if code = 18 then decExact 8 data len
   else some (.bin data)
 
 /-! ## `Nexthop::from_bytes` followed by `to_bytes` -/
@@ -324,37 +355,40 @@ def nhFromBytes (b : Bytes) : Option Bytes :=
 
 /-! ## `decode_nlri_list` / `decode_nlri` / `Ipv4Net::decode` / `Ipv6Net::decode` -/
 
+/-- `decode_nlri`: the AddPath path identifier; returns (id, what is left, the `len` passed on);
+    `none` = `len < 4` -/
+def pathId (addpath : Bool) (bs : Bytes) (rest : Nat) : Option (Nat × Bytes × Nat) :=
+  if addpath then
+    if rest < 4 then none else some (be (bs.take 4), bs.drop 4, rest - 4)
+  else some (0, bs, rest)
+
 /-- IPv4/IPv6 unicast+multicast entries over a `BgpReader`; every failure is
-    `UpdateMalformedAttributeList`. `maxBits` = 32 / 128. -/
-def nlriLoop (maxBits : Nat) (addpath : Bool) : Nat → Bytes → List PNlri → Out (List PNlri)
-  -- `acc` is kept in reverse order
-  | 0, _, _ => .panic
-  | fuel + 1, bs, acc =>
+    `UpdateMalformedAttributeList`. `maxBits` = 32 / 128.  `rem` is `reader.remaining_len()`
+    (= `bs.length`, carried along like the reader's position); `acc` is kept in reverse order. -/
+def nlriLoop (maxBits : Nat) (addpath : Bool) : Nat → Bytes → Nat → List PNlri → Out (List PNlri)
+  | 0, _, _, _ => .panic
+  | fuel + 1, bs, rem, acc =>
       match bs with
       | [] => .ok acc.reverse
       | _ :: _ =>
-          let rest := bs.length
-          -- decode_nlri: path id
-          if addpath ∧ rest < 4 then .err eMalformed
-          else
-            let id := if addpath then be (bs.take 4) else 0
-            let bs1 := if addpath then bs.drop 4 else bs
-            let len := if addpath then rest - 4 else rest
-            match bs1 with
-            | [] => .err eMalformed
-            | bl :: bs2 =>
-                let n := (bl + 7) / 8
-                if len < n ∨ bl > maxBits then .err eMalformed
-                else if bs2.length < n then .err eMalformed
-                else nlriLoop maxBits addpath fuel (bs2.drop n)
-                      (⟨id, bl, padTo (bs2.take n) (maxBits / 8)⟩ :: acc)
+          match pathId addpath bs rem with
+          | none => .err eMalformed
+          | some (id, bs1, len) =>
+              match bs1 with
+              | [] => .err eMalformed
+              | bl :: bs2 =>
+                  let n := (bl + 7) / 8
+                  if len < n ∨ bl > maxBits then .err eMalformed
+                  else if len - 1 < n then .err eMalformed
+                  else nlriLoop maxBits addpath fuel (bs2.drop n) (len - 1 - n)
+                        (⟨id, bl, padTo (bs2.take n) (maxBits / 8)⟩ :: acc)
 
 def isV4Fam (f : Nat) : Bool := f == 65537 || f == 65538
 def isV6Fam (f : Nat) : Bool := f == 131073 || f == 131074
 
 def decodeNlriList (dec : HypDec) (fam : Nat) (addpath isReach : Bool) (bs : Bytes) : Out (List PNlri) :=
-  if isV4Fam fam then nlriLoop 32 addpath (bs.length + 1) bs []
-  else if isV6Fam fam then nlriLoop 128 addpath (bs.length + 1) bs []
+  if isV4Fam fam then nlriLoop 32 addpath (bs.length + 1) bs bs.length []
+  else if isV6Fam fam then nlriLoop 128 addpath (bs.length + 1) bs bs.length []
   else dec fam addpath isReach bs
 
 /-! ## `reconcile_as4` -/
@@ -431,29 +465,35 @@ def aggregatorAsn (a : Attr) : Out Nat := do
   let d ← slice b 0 4
   .ok (be d)
 
-def reconcileAs4 (attrs : List Attr) : Out (List Attr) := do
-  let (as4Path, attrs) := removeFirst 17 attrs
-  let (as4Agg, attrs) := removeFirst 18 attrs
-  -- AGGREGATOR / AS4_AGGREGATOR
-  let (ignore, attrs) ←
-    (match as4Agg, attrs.find? (fun a => a.code = 7) with
-     | some a4, some agg => do
-         let asn ← aggregatorAsn agg
-         if asn = 23456 then do
-           let bin ← binaryUnwrap a4
-           let attrs' ← mapFirst 7 (fun _ => .ok ⟨7, 0xc0, .bin bin⟩) attrs
-           .ok (false, attrs')
-         else .ok (true, attrs)
-     | _, _ => .ok (false, attrs) : Out (Bool × List Attr))
-  if ignore then .ok attrs
-  else match as4Path with
-    | none => .ok attrs
-    | some a4 =>
-        mapFirst 2 (fun ap => do
-          let p ← binaryUnwrap ap
-          let p4 ← binaryUnwrap a4
-          let m ← asPathReconcile p p4
-          .ok ⟨2, 0x40, .bin m⟩) attrs
+/-- AGGREGATOR / AS4_AGGREGATOR: returns `ignore_as4_path` and the attributes -/
+def reconcileAgg (as4Agg : Option Attr) (attrs : List Attr) : Out (Bool × List Attr) :=
+  match as4Agg, attrs.find? (fun a => a.code = 7) with
+  | some a4, some agg => do
+      let asn ← aggregatorAsn agg
+      if asn = 23456 then do
+        let bin ← binaryUnwrap a4
+        let attrs' ← mapFirst 7 (fun _ => .ok ⟨7, 0xc0, .bin bin⟩) attrs
+        .ok (false, attrs')
+      else .ok (true, attrs)
+  | _, _ => .ok (false, attrs)
+
+/-- AS_PATH / AS4_PATH -/
+def reconcilePath (as4Path : Option Attr) (attrs : List Attr) : Out (List Attr) :=
+  match as4Path with
+  | none => .ok attrs
+  | some a4 =>
+      mapFirst 2 (fun ap => do
+        let p ← binaryUnwrap ap
+        let p4 ← binaryUnwrap a4
+        let m ← asPathReconcile p p4
+        .ok ⟨2, 0x40, .bin m⟩) attrs
+
+def reconcileAs4 (attrs : List Attr) : Out (List Attr) :=
+  let r1 := removeFirst 17 attrs
+  let r2 := removeFirst 18 r1.2
+  do
+    let r ← reconcileAgg r2.1 r2.2
+    if r.1 then .ok r.2 else reconcilePath r1.1 r.2
 
 /-! ## UPDATE arm -/
 
@@ -490,6 +530,37 @@ def attrHeader (buf : Bytes) (attrEnd pos : Nat) : Out Hdr :=
         let alen ← rd8 buf pos
         .ok (.hdr flags code alen (pos + 1))
 
+/-- where a successfully decoded attribute goes -/
+def attrStore (two : Bool) (s : AState) (a : Attr) : AState :=
+  if a.code = 14 then { s with mpReach := a.binary }
+  else if a.code = 15 then { s with mpUnreach := a.binary }
+  else if a.code = 3 then { s with nexthop := a.binary.bind nhFromBytes }
+  else if (a.code = 17 ∨ a.code = 18) ∧ ¬ two then s
+  else { s with attrs := s.attrs ++ [a] }
+
+/-- an attribute whose type has canonical flags `expected` -/
+def attrKnown (two : Bool) (buf : Bytes) (s : AState) (flags code alen pos expected : Nat) : AState :=
+  if (flags ^^^ expected) &&& 0xc0 > 0 then
+    { s with pos := pos + alen, errs := s.errs ++ [(code, flags)] }
+  else
+    match attrDecode code ((buf.drop pos).take alen) alen two with
+    | some d => attrStore two { s with pos := pos + alen } ⟨code, flags, d⟩
+    | none =>
+        if code ≠ 17 ∧ code ≠ 18 then
+          { s with pos := pos + alen, errs := s.errs ++ [(code, flags)] }
+        else { s with pos := pos + alen }
+
+/-- an attribute of a type without canonical flags -/
+def attrUnknown (buf : Bytes) (s : AState) (flags code alen pos : Nat) : Out AState :=
+  if flags &&& 0x80 = 0 then
+    .ok { s with pos := pos + alen, errs := s.errs ++ [(code, flags)] }
+  else if flags &&& 0x40 ≠ 0 then
+    if pos + alen > buf.length then .err eMalformed
+    else do
+      let raw ← slice buf pos (pos + alen)
+      .ok { s with pos := pos + alen, attrs := s.attrs ++ [⟨code, flags, .opq raw⟩] }
+  else .ok { s with pos := pos + alen }
+
 /-- everything after the `attr_end < position + alen` guard for one attribute -/
 def attrBody (two : Bool) (buf : Bytes) (s : AState) (flags code alen pos : Nat) : Out AState :=
   if s.seen.contains code then
@@ -498,32 +569,8 @@ def attrBody (two : Bool) (buf : Bytes) (s : AState) (flags code alen pos : Nat)
   else
     let s := { s with seen := code :: s.seen }
     match canonicalFlags code with
-    | some expected =>
-        if (flags ^^^ expected) &&& 0xc0 > 0 then
-          .ok { s with pos := pos + alen, errs := s.errs ++ [(code, flags)] }
-        else
-          match attrDecode code ((buf.drop pos).take alen) alen two with
-          | some d =>
-              let a : Attr := ⟨code, flags, d⟩
-              let s := { s with pos := pos + alen }
-              if code = 14 then .ok { s with mpReach := a.binary }
-              else if code = 15 then .ok { s with mpUnreach := a.binary }
-              else if code = 3 then .ok { s with nexthop := a.binary.bind nhFromBytes }
-              else if (code = 17 ∨ code = 18) ∧ ¬ two then .ok s
-              else .ok { s with attrs := s.attrs ++ [a] }
-          | none =>
-              if code ≠ 17 ∧ code ≠ 18 then
-                .ok { s with pos := pos + alen, errs := s.errs ++ [(code, flags)] }
-              else .ok { s with pos := pos + alen }
-    | none =>
-        if flags &&& 0x80 = 0 then
-          .ok { s with pos := pos + alen, errs := s.errs ++ [(code, flags)] }
-        else if flags &&& 0x40 ≠ 0 then
-          if pos + alen > buf.length then .err eMalformed
-          else do
-            let raw ← slice buf pos (pos + alen)
-            .ok { s with pos := pos + alen, attrs := s.attrs ++ [⟨code, flags, .opq raw⟩] }
-        else .ok { s with pos := pos + alen }
+    | some expected => .ok (attrKnown two buf s flags code alen pos expected)
+    | none => attrUnknown buf s flags code alen pos
 
 /-- `while c.position() < attr_end` -/
 def attrLoop (two : Bool) (buf : Bytes) (attrEnd : Nat) : Nat → AState → Out AState
@@ -606,6 +653,76 @@ def updateLensOld (p : Profile) (buf : Bytes) : Out (Nat × Nat) := do
         if buf.length < s then .err eMalformed else .ok (wl, al)
     | _ => .err eMalformed
 
+/-- the error records appended after the attribute loop -/
+def finalErrs (s : AState) (reachLen attrEnd : Nat) : List (Nat × Nat) :=
+  let errs := s.errs
+  let errs :=
+    if reachLen ≠ 0 ∨ s.mpReach.isSome then
+      let errs := if ¬ s.seen.contains 1 ∨ ¬ s.seen.contains 2 then errs ++ [(1, 0x40)] else errs
+      if errs.isEmpty ∧ s.nexthop.isNone ∧ reachLen ≠ 0 then errs ++ [(3, 0x40)] else errs
+    else errs
+  if s.pos ≠ attrEnd then errs ++ [(0, 0)] else errs
+
+/-- legacy IPv4 NLRI after the attribute block -/
+def legacyReach (dec : HypDec) (c : Codec) (buf : Bytes) (pos : Nat) : Out (List PNlri) :=
+  if pos < buf.length then
+    match c.addpath? FAM_IPV4 with
+    | none => .err eMalformed
+    | some ap => do
+        let d ← slice buf pos buf.length
+        decodeNlriList dec FAM_IPV4 ap true d
+  else .ok []
+
+/-- legacy IPv4 withdrawn routes -/
+def legacyUnreach (dec : HypDec) (c : Codec) (buf : Bytes) (wl : Nat) : Out (List PNlri) :=
+  if 0 < wl then
+    match c.addpath? FAM_IPV4 with
+    | none => .err eMalformed
+    | some ap => do
+        let d ← slice buf 21 (21 + wl)
+        decodeNlriList dec FAM_IPV4 ap false d
+  else .ok []
+
+def mpReachOf (dec : HypDec) (c : Codec) : Option Bytes → Out (Option (Nat × List PNlri × Option Bytes))
+  | some b => do
+      let r ← parseMpReach dec c b
+      .ok (some r)
+  | none => .ok none
+
+def mpUnreachOf (dec : HypDec) (c : Codec) : Option Bytes → Out (Option (Nat × List PNlri))
+  | some b => do
+      let r ← parseMpUnreach dec c b
+      .ok (some r)
+  | none => .ok none
+
+/-- non-IPv4 End-of-RIB: MP_UNREACH_NLRI with no NLRI and nothing else in the message -/
+def eorFamily (attrs : List Attr) (errs : List (Nat × Nat)) (reach unreach : List PNlri)
+    (mpReach : Option (Nat × List PNlri × Option Bytes)) (mpUnreach : Option (Nat × List PNlri)) : Option Nat :=
+  match mpUnreach with
+  | some (fam, entries) =>
+      if entries.isEmpty && reach.isEmpty
+          && (match mpReach with | none => true | some (_, e, _) => e.isEmpty)
+          && unreach.isEmpty && attrs.isEmpty && errs.isEmpty then some fam else none
+  | none => none
+
+/-- End-of-RIB detection, AS4 reconciliation, `ParsedUpdate::Routes` -/
+def assemble (two : Bool) (s : AState) (errs : List (Nat × Nat)) (reach unreach : List PNlri)
+    (mpReach : Option (Nat × List PNlri × Option Bytes)) (mpUnreach : Option (Nat × List PNlri)) : Out Msg :=
+  match eorFamily s.attrs errs reach unreach mpReach mpUnreach with
+  | some fam => .ok (.eor fam)
+  | none => do
+      let attrs ← if two then reconcileAs4 s.attrs else .ok s.attrs
+      .ok (.update
+        (if reach.isEmpty then none else some ⟨FAM_IPV4, s.nexthop, reach⟩)
+        (match mpReach with
+         | some (fam, e, nh) => if e.isEmpty then none else some ⟨fam, nh, e⟩
+         | none => none)
+        (if unreach.isEmpty then none else some ⟨FAM_IPV4, unreach⟩)
+        (match mpUnreach with
+         | some (fam, e) => if e.isEmpty then none else some ⟨fam, e⟩
+         | none => none)
+        attrs errs)
+
 def parseUpdateWith (lens : Bytes → Out (Nat × Nat)) (dec : HypDec) (p : Profile) (c : Codec) (buf : Bytes)
     (hdrErr : Notif) : Out Msg :=
   if buf.length < 23 then .err hdrErr
@@ -616,64 +733,12 @@ def parseUpdateWith (lens : Bytes → Out (Nat × Nat)) (dec : HypDec) (p : Prof
     let s ← attrLoop c.two buf attrEnd (buf.length + 1) { pos := 23 + wl }
     if reachLen = 0 ∧ al = 0 ∧ wl = 0 then .ok (.eor FAM_IPV4)
     else do
-      let errs := s.errs
-      let errs :=
-        if reachLen ≠ 0 ∨ s.mpReach.isSome then
-          let errs := if ¬ s.seen.contains 1 ∨ ¬ s.seen.contains 2 then errs ++ [(1, 0x40)] else errs
-          if errs.isEmpty ∧ s.nexthop.isNone ∧ reachLen ≠ 0 then errs ++ [(3, 0x40)] else errs
-        else errs
-      let errs := if s.pos ≠ attrEnd then errs ++ [(0, 0)] else errs
-      let pos := attrEnd
-      let reach ←
-        (if pos < buf.length then
-          match c.addpath? FAM_IPV4 with
-          | none => .err eMalformed
-          | some ap => do
-              let d ← slice buf pos buf.length
-              decodeNlriList dec FAM_IPV4 ap true d
-        else .ok [] : Out (List PNlri))
-      let unreach ←
-        (if 0 < wl then
-          match c.addpath? FAM_IPV4 with
-          | none => .err eMalformed
-          | some ap => do
-              let d ← slice buf 21 (21 + wl)
-              decodeNlriList dec FAM_IPV4 ap false d
-        else .ok [] : Out (List PNlri))
-      let mpReach ←
-        (match s.mpReach with
-         | some b => do
-             let r ← parseMpReach dec c b
-             .ok (some r)
-         | none => .ok none : Out (Option (Nat × List PNlri × Option Bytes)))
-      let mpUnreach ←
-        (match s.mpUnreach with
-         | some b => do
-             let r ← parseMpUnreach dec c b
-             .ok (some r)
-         | none => .ok none : Out (Option (Nat × List PNlri)))
-      -- non-IPv4 End-of-RIB
-      let eor : Option Nat :=
-        match mpUnreach with
-        | some (fam, entries) =>
-            if entries.isEmpty && reach.isEmpty
-                && (match mpReach with | none => true | some (_, e, _) => e.isEmpty)
-                && unreach.isEmpty && s.attrs.isEmpty && errs.isEmpty then some fam else none
-        | none => none
-      match eor with
-      | some fam => .ok (.eor fam)
-      | none => do
-          let attrs ← if c.two then reconcileAs4 s.attrs else .ok s.attrs
-          .ok (.update
-            (if reach.isEmpty then none else some ⟨FAM_IPV4, s.nexthop, reach⟩)
-            (match mpReach with
-             | some (fam, e, nh) => if e.isEmpty then none else some ⟨fam, nh, e⟩
-             | none => none)
-            (if unreach.isEmpty then none else some ⟨FAM_IPV4, unreach⟩)
-            (match mpUnreach with
-             | some (fam, e) => if e.isEmpty then none else some ⟨fam, e⟩
-             | none => none)
-            attrs errs)
+      let errs := finalErrs s reachLen attrEnd
+      let reach ← legacyReach dec c buf attrEnd
+      let unreach ← legacyUnreach dec c buf wl
+      let mpReach ← mpReachOf dec c s.mpReach
+      let mpUnreach ← mpUnreachOf dec c s.mpUnreach
+      assemble c.two s errs reach unreach mpReach mpUnreach
 
 def parseUpdate (dec : HypDec) (p : Profile) (c : Codec) (buf : Bytes) (hdrErr : Notif) : Out Msg :=
   parseUpdateWith updateLens dec p c buf hdrErr
